@@ -223,7 +223,12 @@ fn thread_main(vec: Arc<RawVec<Payload>>, ops: Vec<BOp>, pool: Option<Arc<rayon:
             }
             BOp::Get { idx } => {
                 let inv = sim::seq();
-                let got = vec.get(*idx).map(|it| validate(&it, "get"));
+                // a lookup answers "nothing" or an item for every index, also for those no push can
+                // ever be assigned (the top 32 values of u32)
+                let got = match crate::world_nucleo::expected_panic(|| vec.get(*idx).map(|it| validate(&it, "get"))) {
+                    Ok(g) => g,
+                    Err(m) => sim::violation("C08", "lookup-panic", format!("get({idx}) panicked: {m}")),
+                };
                 let ret = sim::seq();
                 hist(|h| h.evs.push(Ev::Get { inv, ret, idx: *idx, got }));
             }
@@ -626,7 +631,7 @@ pub fn generate(rng: &mut SplitMix, focus: &str, thorough: bool) -> BoxcarScript
                     };
                     BOp::Extend { n, lie, panic_at, burn: if rng.below(4) == 0 { 1 + rng.below(8) as u32 } else { 0 } }
                 }
-                10..=12 => BOp::Get { idx: pick(rng, &near) },
+                10..=12 => BOp::Get { idx: if rng.below(10) == 0 { pick(rng, &[u32::MAX, u32::MAX - 31, u32::MAX - 32, u32::MAX - 33, 1 << 31]) } else { pick(rng, &near) } },
                 13 | 14 => BOp::GetOwn,
                 15 | 16 => BOp::Count,
                 17 => BOp::Snapshot { start: pick(rng, &[0u32, 0, 1, 30, 33, 96]) },
